@@ -123,6 +123,13 @@ func run(c *vk.Ctx, can *rig.Canary, sc scen, idx int) {
 			m = l.Peer.App("x")
 		case "unknown":
 			m = l.Peer.Msg("ZZ", fixref.F("58", "x"))
+		case "heartbeat-34=0":
+			// unusual sequence numbers: the message is inbound traffic all the same
+			m = l.Peer.MsgSeq("0", 0)
+		case "heartbeat-34=-5":
+			m = l.Peer.MsgSeq("0", -5)
+		case "app-without-34":
+			m = rig.Reframe(l.Peer.App("x"), nil, map[string]bool{rig.TSeq: true})
 		default:
 			m = l.Peer.TestRequest("k")
 		}
@@ -359,7 +366,7 @@ func run(c *vk.Ctx, can *rig.Canary, sc scen, idx int) {
 
 func main() {
 	c := vk.Init("C09")
-	c.Rule("full-stack sessions, both roles, N in {1,2} (quick) + {5,20,40} (thorough; N=40 exercises the N/20 branch), T = N + max(1,N/20); inbound patterns: total silence; total silence while the message store refuses the first TestRequest (the probe cannot leave; the disconnect after two periods is still due); a second message T/20 after the Logon and then silence (measured from that message); silence ending 0.3 s before the deadline; a message (Heartbeat / application / unknown type / TestRequest) arriving 2%, 10%, 50%, 85% into the second period; steady traffic with period 0.95 N for 12 periods; plus sessions that log on a second time on the same connection after a Logout exchange (acceptor: first interval 1 then 2, 2 then 1, 1 then 1; initiator: same interval), observed from the second logon with the patterns total silence / answer at 50% / steady traffic. Oracle: silence => TestRequest within T + T/10 + slack of the last inbound message (and not before T), then EventDisconnect, OnStopped/OnDisconnect, net.Conn.Close (and Serve return) within T + T/10 + slack of the TestRequest (and not before T); an inbound message of any type in the second period finds the session connected, buys another period, and renewed silence is probed again with a second TestRequest before any disconnect; live peers see no TestRequest and no disconnect. slack = 100 ms + 3 x measured scheduler oversleep. distinct = (role, N, pattern, answer type); non-trivial = a timer expiry or a cancelled expiry was observed")
+	c.Rule("full-stack sessions, both roles, N in {1,2} (quick) + {5,20,40} (thorough; N=40 exercises the N/20 branch), T = N + max(1,N/20); inbound patterns: total silence; total silence while the message store refuses the first TestRequest (the probe cannot leave; the disconnect after two periods is still due); a second message T/20 after the Logon and then silence (measured from that message); silence ending 0.3 s before the deadline; a message (Heartbeat / application / unknown type / TestRequest; also Heartbeats numbered 0 or -5 and an application message without MsgSeqNum) arriving 2%, 10%, 50%, 85% into the second period; steady traffic with period 0.95 N for 12 periods; plus sessions that log on a second time on the same connection after a Logout exchange (acceptor: first interval 1 then 2, 2 then 1, 1 then 1; initiator: same interval), observed from the second logon with the patterns total silence / answer at 50% / steady traffic. Oracle: silence => TestRequest within T + T/10 + slack of the last inbound message (and not before T), then EventDisconnect, OnStopped/OnDisconnect, net.Conn.Close (and Serve return) within T + T/10 + slack of the TestRequest (and not before T); an inbound message of any type in the second period finds the session connected, buys another period, and renewed silence is probed again with a second TestRequest before any disconnect; live peers see no TestRequest and no disconnect. slack = 100 ms + 3 x measured scheduler oversleep. distinct = (role, N, pattern, answer type); non-trivial = a timer expiry or a cancelled expiry was observed")
 	c.Assume("reference instant of an inbound message = the moment it was handed to the scripted connection (the library's Read returns it within microseconds)")
 	can := rig.StartCanary()
 	defer can.Stop()
@@ -384,6 +391,21 @@ func main() {
 				}
 				scs = append(scs, scen{role, n, p, answers[k%len(answers)], 0})
 				k++
+			}
+		}
+	}
+	// inbound messages with unusual sequence numbers (0, negative, none) are traffic like any other
+	for _, role := range []rig.Role{rig.Acceptor, rig.Initiator} {
+		for ai, a := range []string{"heartbeat-34=0", "heartbeat-34=-5", "app-without-34"} {
+			pats := []string{"steady-traffic", "answer-50%", "ends-just-before-deadline"}
+			if !c.Thorough() {
+				pats = pats[(ai+int(role))%3 : (ai+int(role))%3+1]
+				if a == "heartbeat-34=0" {
+					pats = []string{"steady-traffic", "answer-50%"}
+				}
+			}
+			for _, p := range pats {
+				scs = append(scs, scen{role, 1, p, a, 0})
 			}
 		}
 	}
